@@ -1,7 +1,7 @@
 use std::time::{SystemTime, UNIX_EPOCH};
 
 use combine::error::StreamError;
-use combine::{Parser, attempt, choice, easy, many, many1};
+use combine::{Parser, choice, easy, many, many1};
 use indexmap::indexmap;
 use redis_protocol::resp3::types::BytesFrame;
 use sierradb::StreamId;
@@ -158,13 +158,9 @@ impl<'a> OptionalArg<'a> {
         let payload = keyword("PAYLOAD").with(data()).map(OptionalArg::Payload);
         let metadata = keyword("METADATA").with(data()).map(OptionalArg::Metadata);
 
-        choice!(
-            attempt(event_id),
-            attempt(expected_version),
-            attempt(timestamp),
-            attempt(payload),
-            attempt(metadata)
-        )
+        // No `attempt` here: once an option keyword has matched, an invalid value
+        // is an error rather than the start of another event.
+        choice!(event_id, expected_version, timestamp, payload, metadata)
     }
 }
 
